@@ -50,6 +50,25 @@ func goDbStr(db signature.SignatureDatabase) string {
 	return strings.Join(xs, "|")
 }
 
+// fieldEnc is the stream the layout in the statement defines for the lists a database object HOLDS - type, the three
+// size fields, header and entries of every list, taken from the exported fields and written by the harness itself,
+// without a call on the object
+func fieldEnc(db signature.SignatureDatabase) []byte {
+	var b bytes.Buffer
+	for _, l := range db {
+		b.Write(wireGUID(l.SignatureType))
+		binary.Write(&b, binary.LittleEndian, l.ListSize)
+		binary.Write(&b, binary.LittleEndian, l.HeaderSize)
+		binary.Write(&b, binary.LittleEndian, l.Size)
+		b.Write(l.SignatureHeader)
+		for _, sd := range l.Signatures {
+			b.Write(wireGUID(sd.Owner))
+			b.Write(sd.Data)
+		}
+	}
+	return b.Bytes()
+}
+
 type specList struct {
 	typ      string
 	listSize string
